@@ -9,8 +9,7 @@ usage: python3 selftest/C15/corrupt_trace.py [trace.ndjson]      (default: .work
   holds   : one dkg.db observation after a finished DKG is marked "no secret found"        -> ScannerBlind
   emitter : one emission is attributed to an emitter the specification does not list       -> UnknownEmitter
   dropped : one Step line of a replayed walk is removed                                     -> Conformance (file machine)
-exit 0 if every corruption is flagged at the corrupted line (dropped: after it) and the clean trace has no alarm other
-than the known finding (dkg.db group-accessible)."""
+exit 0 if every corruption is flagged at the corrupted line (dropped: after it) and the clean trace has no alarm."""
 import json, os, sys, shutil
 sys.path.insert(0, os.path.join(os.path.dirname(os.path.abspath(__file__)), "..", "..", "tools"))
 import core
@@ -30,8 +29,7 @@ def validate(lines, name):
             alarms = obj
         if tag == "DONE":
             done = True
-    known = lambda a: a["mon"] == "SecretFileOwnerOnly" and a["where"] == "dkg.db" and a["detail"] == "group-accessible"
-    return done, [a for a in alarms if not known(a)]
+    return done, alarms
 
 
 def main():
@@ -39,7 +37,7 @@ def main():
     lines = [l.strip() for l in open(src) if l.strip()]
     evs = [json.loads(l) for l in lines]
     done, base = validate(lines, "clean")
-    print("clean trace (%d lines): consumed=%s, alarms other than the known finding: %d" % (len(lines), done, len(base)))
+    print("clean trace (%d lines): consumed=%s, alarms: %d" % (len(lines), done, len(base)))
     ok = done and not base
 
     def find(pred):
